@@ -1,0 +1,30 @@
+//go:build verif
+
+// Package verifhook provides named yield points for the verification harness in /verif.
+// With the build tag "verif" a test harness can install a callback that is invoked at
+// each point (to widen scheduling windows); without the tag every point is an empty
+// function that the compiler removes.
+package verifhook
+
+import "sync/atomic"
+
+// Enabled tells whether yield points are compiled in.
+const Enabled = true
+
+var cb atomic.Pointer[func(string)]
+
+// Set installs (or, with nil, removes) the callback invoked at every yield point.
+func Set(f func(string)) {
+	if f == nil {
+		cb.Store(nil)
+		return
+	}
+	cb.Store(&f)
+}
+
+// Point is a named yield point.
+func Point(name string) {
+	if f := cb.Load(); f != nil {
+		(*f)(name)
+	}
+}
